@@ -4,6 +4,8 @@ import (
 	"reflect"
 	"strconv"
 	"strings"
+
+	ad "verif/harness/design"
 )
 
 // Typed Go values for the Default(...) of list and map attributes: goa's generators print a default with %#v, so the
@@ -113,4 +115,17 @@ func typedMap(kind string, m map[string]any) (any, bool) {
 		out.SetMapIndex(kv, ev)
 	}
 	return out.Interface(), true
+}
+
+// defaultKind is kindOf, looking through a reference to a named list / map type (Type("L", ArrayOf(Int))): its default
+// has to be given as the typed value of the underlying collection.
+func (b *builder) defaultKind(t ad.TRef) string {
+	if t.Kind == "user" {
+		for _, ut := range b.d.Types {
+			if ut.Name == t.Ref && (ut.Kind == "array" || ut.Kind == "map") && ut.Base != nil {
+				return kindOf(*ut.Base)
+			}
+		}
+	}
+	return kindOf(t)
 }
